@@ -49,7 +49,7 @@ type Op struct {
 	// Inject (local ops only): a second source-local mutation made from inside the server's push of
 	// the first one (schedule point srv.pushBeforeNotify: snapshot collected, not yet memorized)
 	Inject *gen.Step `json:"inject,omitempty"`
-	Via  string   `json:"via"` // local | client | cut | drift | sync
+	Via  string   `json:"via"` // local | client | cut | drift | sync | relisten
 	Step gen.Step `json:"step,omitempty"`
 }
 
@@ -63,6 +63,11 @@ type Case struct {
 	PushMs    int        `json:"push_ms"`
 	Ops       []Op       `json:"ops"`
 	HoldReply bool       `json:"hold_reply"` // hold the first mutation reply until a push went out
+	// Pre: source-local history before the server and the client exist (the hello snapshot then carries
+	// clocks well above 1, also for shallow clocks)
+	Pre []gen.Step `json:"pre,omitempty"`
+	// PaceMs: pause after every op (each source change then gets a push of its own instead of one coalesced diff)
+	PaceMs int `json:"pace_ms,omitempty"`
 }
 
 func (c Case) key() string { b, _ := json.Marshal(c); return string(b) }
@@ -165,6 +170,9 @@ func runCase(c Case, st *ev.Stats) error {
 		return err
 	}
 	defer src.Dispose()
+	for _, s := range c.Pre {
+		rec.Apply(src, s)
+	}
 	// server
 	ln, err := net.Listen("tcp4", "127.0.0.1:0")
 	if err != nil {
@@ -390,6 +398,24 @@ func runCase(c Case, st *ev.Stats) error {
 				return fmt.Errorf("after a dropped connection the client did not reach Ready again within 6 s: client %s", cli.Mach.String())
 			}
 			lastWasClient = false
+		case "relisten":
+			// the server's listener fails; the server restarts it (leaving and re-entering RpcReady) and the client reconnects
+			if l := srv.Listener.Load(); l != nil {
+				_ = (*l).Close()
+			}
+			faults++
+			time.Sleep(50 * time.Millisecond)
+			deadline := time.Now().Add(8 * time.Second)
+			for (!cli.Mach.Is1(ssrpc.ClientStates.Ready) || !srv.Mach.Is1(ssrpc.ServerStates.Ready)) && time.Now().Before(deadline) {
+				time.Sleep(5 * time.Millisecond)
+			}
+			if !cli.Mach.Is1(ssrpc.ClientStates.Ready) || !srv.Mach.Is1(ssrpc.ServerStates.Ready) {
+				if st != nil {
+					st.Inconclusive()
+				}
+				return nil
+			}
+			lastWasClient = false
 		case "drift":
 			// perturb the mirror: one tracked state gets 2 extra ticks (parity kept)
 			in := cli.VerifNetMachInternal()
@@ -407,6 +433,9 @@ func runCase(c Case, st *ev.Stats) error {
 			cli.Sync()
 			lastWasClient = true
 		}
+		if c.PaceMs > 0 {
+			time.Sleep(time.Duration(c.PaceMs) * time.Millisecond)
+		}
 		if os.Getenv("VERIF_DEBUG") == "1" {
 			time.Sleep(30 * time.Millisecond)
 			fmt.Fprintf(os.Stderr, "op %d %s %s: source %s q%d | mirror %s q%d | client %s\n", oi, op.Via, op.Step, src.StringAll(), src.QueueTick(), nm.StringAll(), nm.QueueTick(), cli.Mach.String())
@@ -414,7 +443,7 @@ func runCase(c Case, st *ev.Stats) error {
 		if op.Via == "drift" {
 			syncsAtDrift = cli.Mach.Tick(ssrpc.ClientStates.MetricSync)
 			driftAt = oi
-		} else if trackedSum() != sumBefore || op.Via == "sync" || op.Via == "cut" {
+		} else if trackedSum() != sumBefore || op.Via == "sync" || op.Via == "cut" || op.Via == "relisten" {
 			changeAt = oi // after this the client receives fresh clocks (update, full sync or new handshake)
 		}
 	}
@@ -591,7 +620,11 @@ func genCase(t *rapid.T) Case {
 		case k < 17:
 			c.Ops = append(c.Ops, Op{Via: "client", Step: gen.GenStep(t, sc, gen.HistoryOpts{Ops: []string{"add", "remove", "set"}, NoDup: true}, lbl)})
 		case k == 17:
-			c.Ops = append(c.Ops, Op{Via: "cut"})
+			if rapid.IntRange(0, 2).Draw(t, lbl+"relisten") == 0 {
+				c.Ops = append(c.Ops, Op{Via: "relisten"})
+			} else {
+				c.Ops = append(c.Ops, Op{Via: "cut"})
+			}
 		case k == 18:
 			c.Ops = append(c.Ops, Op{Via: "drift"})
 		default:
@@ -599,6 +632,12 @@ func genCase(t *rapid.T) Case {
 		}
 	}
 	c.HoldReply = c.PushMs > 0 && rapid.IntRange(0, 3).Draw(t, "holdReply") == 0
+	if rapid.IntRange(0, 3).Draw(t, "paced") == 0 {
+		c.PaceMs = rapid.SampledFrom([]int{5, 30}).Draw(t, "paceMs")
+	}
+	if rapid.Bool().Draw(t, "withPre") {
+		c.Pre = gen.GenHistory(t, sc, gen.HistoryOpts{MinLen: 2, MaxLen: 8, Ops: []string{"add", "remove", "add", "remove", "set"}})
+	}
 	return c
 }
 
@@ -641,6 +680,59 @@ func TestQuietTail(t *testing.T) {
 			}
 			c.Ops = append(c.Ops, o)
 		}
+		st.Journal(map[string]any{"kind": "c09", "case": c})
+		if err := runCase(c, st); err != nil {
+			ev.G().PinLast()
+			t.Fatalf("C09 violated: %v", err)
+		}
+	})
+}
+
+// TestShallowAfterHistory: shallow clocks (the mirror only follows parity) on a source that already has a history when
+// the client says hello - the server's memory of "what the client has" then starts from deep clock values while every
+// later snapshot is 0/1 - followed by a few local changes and silence.
+func TestShallowAfterHistory(t *testing.T) {
+	st := ev.G()
+	st.SetRapid(40, 800, 3)
+	rapid.Check(t, func(t *rapid.T) {
+		c := genCase(t)
+		c.Shallow, c.SyncMuts, c.HoldReply = true, false, false
+		c.PushMs = rapid.SampledFrom([]int{0, 2, 20}).Draw(t, "shPushMs")
+		c.PaceMs = rapid.SampledFrom([]int{0, 30, 30}).Draw(t, "shPaceMs")
+		if rapid.IntRange(0, 3).Draw(t, "plainSchema") != 0 {
+			// relation-free states, all synchronised: the churn below decides every clock exactly
+			var sd []gen.StateDef
+			for i := 0; i < rapid.IntRange(3, 5).Draw(t, "plainN"); i++ {
+				sd = append(sd, gen.StateDef{Name: fmt.Sprintf("S%d", i)})
+			}
+			c.Schema = gen.Schema{States: sd}
+			c.Allowed, c.Skipped = nil, nil
+			c.Ops = nil
+		}
+		// churn: every state is toggled 0..4 times (tick k, active iff k is odd), in a drawn order
+		c.Pre = nil
+		for _, n := range rapid.Permutation(c.Schema.UserNames()).Draw(t, "churnOrder") {
+			k := rapid.IntRange(0, 4).Draw(t, "churn"+n)
+			for i := 0; i < k; i++ {
+				op := "add"
+				if i%2 == 1 {
+					op = "remove"
+				}
+				c.Pre = append(c.Pre, gen.Step{Op: op, States: []string{n}})
+			}
+		}
+		var ops []Op
+		for _, o := range c.Ops {
+			if o.Via == "local" || o.Via == "cut" {
+				o.Inject = nil
+				ops = append(ops, o)
+			}
+		}
+		n := rapid.IntRange(1, 3).Draw(t, "shTail")
+		for i := 0; i < n; i++ {
+			ops = append(ops, Op{Via: "local", Step: gen.GenStep(t, c.Schema, gen.HistoryOpts{Ops: []string{"add", "remove", "set"}, NoDup: true}, fmt.Sprintf("sh%d", i))})
+		}
+		c.Ops = ops
 		st.Journal(map[string]any{"kind": "c09", "case": c})
 		if err := runCase(c, st); err != nil {
 			ev.G().PinLast()
